@@ -54,7 +54,7 @@ def parse_result(line):
     d = {"raw": line}
     m = re.match(r"(OK|HANG|CRASH sig=\d+|EXIT code=-?\d+)", line)
     d["status"] = m.group(1) if m else "GARBLED"
-    for key in ("site", "n", "inj", "canary", "guard", "poison", "live", "tm", "sends", "res",
+    for key in ("site", "n", "inj", "canary", "guard", "poison", "live", "tm", "leaked", "sends", "res",
                 "trace", "sites"):
         m = re.search(r" %s=(\S+)" % key, line)
         d[key] = m.group(1) if m else "?"
@@ -145,7 +145,7 @@ def failure_indicated(res, res0):
     return False
 
 
-def judge(d, clean, verdict, own=None):
+def judge(d, clean, verdict, own=None, rs=None):
     """-> list of (kind, detail) for one faulted run"""
     bad = []
     st = d["status"]
@@ -153,7 +153,16 @@ def judge(d, clean, verdict, own=None):
         bad.append(("crash" if st.startswith("CRASH") else st.split()[0].lower(), st))
         return bad
     if verdict != "Clean":
-        bad.append((verdict.split()[0].lower(), verdict))
+        what = verdict
+        if verdict.startswith("Leak") and d.get("leaked", "?") not in ("?", "-"):
+            what += " (" + ", ".join("block %s: %s, %s bytes, allocated in %s" % (
+                x.split(":")[0],
+                MEMTAG[int(x.split(":")[1])] if int(x.split(":")[1]) < len(MEMTAG) else x.split(":")[1],
+                x.split(":")[2],
+                ("<".join(n for n in rs.resolve([a for a in x.split(":")[3].split("/") if a.startswith("0x")])
+                          if n != "??") if rs and len(x.split(":")) > 3 else "?"))
+                for x in d["leaked"].split(",")) + ")"
+        bad.append((verdict.split()[0].lower(), what))
     if d["guard"] not in ("0",) or d["poison"] not in ("0",):
         bad.append(("heap-corruption", "guard=%s poison=%s" % (d["guard"], d["poison"])))
     if d["canary"] == "0":
@@ -320,7 +329,7 @@ def enumerate_variant(run, model, exe, variant, scen_list, pairs, stats, env=Non
                     run.violation("allocation table of the shim (live=%d) disagrees with the verdict %s"
                                   % (live, v), "case: %s\n%s\n" % (ln, d["raw"][:4000]),
                                   tag="tie_%s_%s_%d_%d" % (variant, sc, k1, k2), no_input=True)
-            bad = judge(d, c1, v, ow)
+            bad = judge(d, c1, v, ow, rs)
             if d["sends"] not in ("-", "?"):
                 run.hist("coap_send_outcomes", ",".join(x.split(":")[1] for x in d["sends"].split(",")))
             if not bad:
@@ -379,7 +388,7 @@ def enumerate_variant(run, model, exe, variant, scen_list, pairs, stats, env=Non
     return failures
 
 
-def report(run, failures, variant):
+def report(run, failures, variant, rerun=None):
     nv = 0
     for (sc, kind, dkey, chain), cs in sorted(failures.items()):
         c = cs[0]
@@ -387,6 +396,8 @@ def report(run, failures, variant):
         if f:
             run.known(f, "%s %s at %s (%d runs, e.g. '%s')" % (sc, kind, chain, len(cs), c["case"]))
             continue
+        if kind == "leak" and rerun is not None:
+            c["detail"] = rerun(c["case"]) or c["detail"]
         nv += 1
         if nv > 12:
             vlib.log("further failing site: %s %s %s (%d runs)" % (sc, kind, chain, len(cs)))
@@ -486,7 +497,7 @@ def replay(run, model, exe, path):
         outs, _ = vlib.run_lines_robust(exe, ["fa %s 0 0" % sc, ln], env=env)
         c, d = parse_result(outs[0]), parse_result(outs[1])
         v = verdicts(model, [d["trace"] if d["status"] == "OK" else "-"])[0]
-        bad = judge(d, c, v, ownerships(model, [d])[0])
+        bad = judge(d, c, v, ownerships(model, [d])[0], rs)
         chains = [rs.chain(nt["bt"]) for nt in parse_notice(d["site"])]
         vlib.log("case   : %s\nstatus : %s\nverdict: %s\nsites  : %s\nresult : %s\nclean  : %s\njudged : %s" %
                  (ln, d["status"], v, " & ".join(chains), d["res"], c["res"], bad or "ok"))
@@ -530,7 +541,20 @@ def main(run):
     thorough = run.tier == "thorough"
     # pairs: thorough = every scenario; quick = the scenarios with at most 100 attempts
     fails = enumerate_variant(run, model, exe, "base", scen, True if thorough else 100, stats)
-    nv = report(run, fails, "base")
+    def rerun_leak(case, exe=exe, env=None):
+        # once more with FA_BT=1: three more frames of the allocating call of every leaked block
+        e = dict(env or {})
+        e["FA_BT"] = "1"
+        outs, _ = vlib.run_lines_robust(exe, [case], env=e)
+        d = parse_result(outs[0])
+        if d["status"] != "OK":
+            return None
+        v = verdicts(model, [d["trace"]])[0]
+        for kind, detail in judge(d, d, v, None, Resolver(exe)):
+            if kind == "leak":
+                return detail
+        return None
+    nv = report(run, fails, "base", rerun_leak)
     if thorough:
         exe_a = vlib.build_driver("h_fault", ["h_fault.c"], "asan", extra=["-no-pie"], wraps=WRAPS)
         fails_a = enumerate_variant(run, model, exe_a, "asan", scen, False, stats, env=ASAN_ENV)
